@@ -3,6 +3,8 @@
 import json, sys
 pid = sys.argv[1]
 wt = sys.argv[2] if len(sys.argv) > 2 else f"/tmp/wt/{pid}"
+prev = json.load(open(sys.argv[3])).get(pid, []) if len(sys.argv) > 3 else []
+prev_txt = ("\n\nChanges that other people have ALREADY tried for this property (do NOT repeat these or close variants of them; pick different mechanisms, different files / functions where possible):\n" + "\n".join("  - " + p for p in prev)) if prev else ""
 rec = None
 for l in open('/verif/properties.jsonl'):
     d = json.loads(l)
@@ -14,7 +16,7 @@ Here is a semantic property of the library that should always hold (JSON record)
 
 {json.dumps(rec, indent=1)}
 
-Task: produce TWO independent, realistic source changes ("mutants") to the library code in your worktree, each of which BREAKS this property while the project still compiles and the whole existing test suite (`cargo test --workspace --offline` in the worktree) still passes. Think of plausible developer mistakes or well-meant "optimisations/refactors": an off-by-one in a bound, a weakened memory ordering, a swapped condition, a dropped special case, a changed constant or table entry, a reordered pair of statements, two cooperating sites that each look fine alone. Prefer changes that need something SPECIFIC to manifest (an unusual input, a particular configuration, a multi-step sequence of operations, a particular thread interleaving or a fault at a particular point) - NOT changes that ordinary use would expose at once. Do not touch tests, docs or Cargo files; only library source under matcher/src or src. Keep each change small (1-15 lines). The two mutants should be of different kinds / touch different mechanisms.
+Task: produce TWO independent, realistic source changes ("mutants") to the library code in your worktree, each of which BREAKS this property while the project still compiles and the whole existing test suite (`cargo test --workspace --offline` in the worktree) still passes. Think of plausible developer mistakes or well-meant "optimisations/refactors": an off-by-one in a bound, a weakened memory ordering, a swapped condition, a dropped special case, a changed constant or table entry, a reordered pair of statements, two cooperating sites that each look fine alone. Prefer changes that need something SPECIFIC to manifest (an unusual input, a particular configuration, a multi-step sequence of operations, a particular thread interleaving or a fault at a particular point) - NOT changes that ordinary use would expose at once. Do not touch tests, docs or Cargo files; only library source under matcher/src or src. Keep each change small (1-15 lines). The two mutants should be of different kinds / touch different mechanisms.{prev_txt}
 
 Note: the unchanged code may itself already violate the property for some inputs; that does not matter. Your change must introduce a NEW violation that your demonstration isolates: the demonstration must FAIL (wrong result / assertion failure / panic / detected race) with your change applied and PASS on the unchanged code.
 
